@@ -15,7 +15,7 @@ FUNCS = ['fixpoint.step', 'fixpoint.attractor', 'fixpoint.trap', 'fixpoint.ee_im
          'fixpoint.descendants', 'prime.prime', 'prime.unprime']
 MODES = c01.MODES
 SOLVER_MS = 600000
-OPS = ['step', 'attractor', 'attractor_inside', 'trap', 'trap_unless', 'ee_image',
+OPS = ['step', 'attractor', 'attractor_inside', 'attractor_inside_any', 'trap', 'trap_unless', 'ee_image',
        'descendants_future', 'descendants_now']
 
 
@@ -28,6 +28,8 @@ def real_op(op, aut, P, Q):
         return fx.attractor(ea, sa, P, aut)
     if op == 'attractor_inside':
         return fx.attractor(ea, sa, P & Q, aut, inside=Q)
+    if op == 'attractor_inside_any':
+        return fx.attractor(ea, sa, P, aut, inside=Q)      # target not necessarily within `inside`
     if op == 'trap':
         return fx.trap(ea, sa, Q, aut)
     if op == 'trap_unless':
@@ -49,6 +51,11 @@ def ref_op(op, game, P, Q):
         return game.attractor(P)
     if op == 'attractor_inside':
         return game.attractor(game.pw(A.and_, P, Q), inside=Q)
+    if op == 'attractor_inside_any':
+        # the recurrence of the code, q := (q \/ cpre q) /\ inside started at the target: after one round the
+        # iterate is inside `inside`, i.e. it is the attractor, within `inside`, of (target \/ cpre target) /\ inside
+        t1 = game.pw(A.and_, game.pw(A.or_, P, game.cpre(P)), Q)
+        return game.attractor(t1, inside=Q)
     if op == 'trap':
         return game.trap(Q)
     if op == 'trap_unless':
@@ -85,6 +92,10 @@ def replay_member(shape, moore, plus_one, op, values):
     elif op == 'attractor_inside':
         PQ = {s: P[s] and Q[s] for s in ex.S}
         want = xplay.solve_reach_safe(ex.X, ex.Y, e_, s_, moore, plus_one, PQ, notQ, True)
+    elif op == 'attractor_inside_any':
+        one = _one_step(ex, e_, s_, moore, plus_one, P)
+        T1 = {s: (P[s] or one[s]) and Q[s] for s in ex.S}
+        want = xplay.solve_reach_safe(ex.X, ex.Y, e_, s_, moore, plus_one, T1, notQ, True)
     elif op == 'trap':
         want = xplay.solve_reach_safe(ex.X, ex.Y, e_, s_, moore, plus_one, F, notQ, False)
     elif op == 'trap_unless':
@@ -153,6 +164,9 @@ def family_op(shape, moore, plus_one, ops):
         sol.add(z3.Or([rt[s] for s in ex.S]), z3.Or([z3.Not(rt[s]) for s in ex.S]))
         nontrivial = str(sol.check()) == 'sat'
         extra = []
+        if op == 'attractor_inside_any':
+            # "remain in this set": no oracle needed
+            extra.append(('within-inside', z3.Or([z3.And(rt[s], z3.Not(Qt[s])) for s in ex.S])))
         if op.startswith('descendants'):
             # closure facts, no oracle: inside the constraint, closed under constrained successors
             img = game.ee_image(rt)
@@ -229,6 +243,6 @@ def run(tier, seed, t0, only=None):
              'plus closure facts of descendants without oracle. Non-trivial = some member has a non-empty, '
              'non-full result',
         assumptions=['z3', 'dd node accessors', 'family run pointwise (DESIGN.md 2.4)',
-                     'attractor with `inside` is claimed for target within `inside` (the documented use)',
+                     'attractor with `inside`: result within `inside` for any target; for targets not within `inside` the reference is the recurrence q := (q \\/ cpre q) /\\ inside started at the target',
                      'reference validated against reachability/safety games solved explicitly'],
         outside=['more than 3 state bits', 'fixpoint.preimage (thin wrapper of dd.bdd.preimage)'])
